@@ -391,8 +391,16 @@ fn find_free_symbols_in_proc<'a>(
 ) -> Result<(), Error> {
     #[cfg(marwood_verif)]
     let _verif_depth = crate::vm::verif::depth::enter("free", "find_free_symbols_in_proc");
-    if car.is_quote() || car.is_quasiquote() {
+    if car.is_quote() {
         return Ok(());
+    }
+
+    // only the unquoted expressions of a quasiquote template are code
+    if car.is_quasiquote() {
+        return match cdr.car() {
+            Some(template) => find_free_symbols_in_quasiquote(template, 0, env, free),
+            None => Ok(()),
+        };
     }
 
     if car.is_symbol() && !car.is_primitive_symbol() && !env.contains(car) {
@@ -457,6 +465,45 @@ fn find_free_symbols_in_proc<'a>(
         find_free_symbols(rest, env, free)?;
     }
 
+    Ok(())
+}
+
+/// Find Free Symbols In Quasiquote
+///
+/// Walk a quasiquote template the way compile_quasiquote() does and collect the
+/// free symbols of the expressions it compiles (an unquote at depth 0).
+fn find_free_symbols_in_quasiquote<'a>(
+    cell: &'a Cell,
+    mut depth: usize,
+    env: &mut HashSet<&'a Cell>,
+    free: &mut HashSet<&'a Cell>,
+) -> Result<(), Error> {
+    if let Cell::Vector(vector) = cell {
+        for it in vector {
+            find_free_symbols_in_quasiquote(it, depth, env, free)?;
+        }
+        return Ok(());
+    }
+    if !cell.is_pair() {
+        return Ok(());
+    }
+    if cell.car().unwrap().is_unquote() {
+        if depth == 0 {
+            return match cell.cdr().unwrap().car() {
+                Some(expr) => find_free_symbols(expr, env, free),
+                None => Ok(()),
+            };
+        }
+        depth -= 1;
+    }
+    if cell.car().unwrap().is_quasiquote() {
+        depth += 1;
+    }
+    let mut rest = cell;
+    while rest.is_pair() {
+        find_free_symbols_in_quasiquote(rest.car().unwrap(), depth, env, free)?;
+        rest = rest.cdr().unwrap();
+    }
     Ok(())
 }
 
